@@ -193,15 +193,24 @@ func (hs *serverHandshakeStateGM) readClientHello() (isResume bool, err error) {
 		}
 	}
 
-	// just for test
-	c.config.getCertificate(hs.clientHelloInfo())
-	hs.cert = c.config.Certificates
-
+	// the signing certificate and the encryption certificate, from Certificates or
+	// through GetCertificate / GetKECertificate
+	sigCert, err := c.config.getCertificate(hs.clientHelloInfo())
+	if err != nil {
+		c.sendAlert(alertInternalError)
+		return false, err
+	}
+	encCert, err := c.config.getEKCertificate(hs.clientHelloInfo())
+	if err != nil {
+		c.sendAlert(alertInternalError)
+		return false, err
+	}
 	// GMT0024
-	if len(hs.cert) < 2 {
+	if encCert == nil || sigCert == nil {
 		c.sendAlert(alertInternalError)
 		return false, fmt.Errorf("tls: amount of server certificates must be greater than 2, which will sign and encipher respectively")
 	}
+	hs.cert = []Certificate{*sigCert, *encCert}
 
 	if hs.clientHello.scts {
 		hs.hello.scts = hs.cert[0].SignedCertificateTimestamps
